@@ -331,6 +331,11 @@ func ruleG13(c *Ctx) *RuleResult {
 				continue
 			}
 			isRange, over := rangeIndexOver(ia.Index)
+			if isRange && over != ia.X {
+				if f2, _ := loadedField(over); f2 == streamsF {
+					over = ia.X // a hand-written index loop loads m.streams again for its condition
+				}
+			}
 			if !isRange || over != ia.X {
 				r.fail(key, c.Pos(oc.Pos()), FuncName(fn), what, "the index "+ia.Index.String()+" is not the index of a range over the whole m.streams")
 				continue
